@@ -30,6 +30,27 @@ CLAIMED = {
         technique="contract refinement + inductive lemma over the contract, discharged by z3",
         note=TRUST + "; threading.Lock trusted as a mutex; destinations identified by the remote argument",
     ),
+    "C01": dict(
+        category="proof",
+        text="build/parse/_parse_header/_unpack are proved to refine a layout spec written from the SOME/IP specification, for all field values and payloads/suffixes of arbitrary symbolic length; layout (per field offset), round trip with arbitrary trailing bytes and 'struct.error iff a field does not fit' are lemmas over those contracts; the datagram receive loop is verified through a loop contract (arbitrary iteration: exactly the decoded message is delivered once, the loop continues on exactly the rest, variant len(data)).",
+        design_ref="DESIGN.md 4/C01",
+        technique="contract refinement by symbolic execution of the real AST (byte ropes, linear struct encoding) + SMT; loop contract for the receive loop",
+        note=TRUST + "; induction over the number of concatenated messages is the (trusted) induction rule applied to the proved step; message_received of the base class is opaque",
+    ),
+    "C16": dict(
+        category="proof",
+        text="SimpleService.message_received is proved, for every request header, registered/unregistered method id, channel and handler behaviour (bytes / None / MalformedMessageError), to send exactly the datagrams of the statement's decision table (first failing check decides), byte-for-byte equal to the spec layout of the reply, to the sender only; send_error_response/send_positive_response/build are under contract.",
+        design_ref="DESIGN.md 4/C16",
+        technique="contract refinement + decision-table postcondition by symbolic execution of the real AST + SMT",
+        note=TRUST + "; handler opaque (three behaviours), transport.sendto recorded, warnings.warn assumed not to raise",
+    ),
+    "C18": dict(
+        category="proof",
+        text="For an arbitrary byte stream, SOMEIPHeader.read / SOMEIPReader.read over the (trusted) readexactly contract is proved to return the same message and consume exactly the bytes that SOMEIPHeader.parse consumes, to raise ParseError exactly where parse rejects the header, and asyncio.IncompleteReadError exactly where parse reports a truncated message.",
+        design_ref="DESIGN.md 4/C18",
+        technique="relational contract (stream reader vs datagram decoder) by symbolic execution of the real coroutine + SMT",
+        note=TRUST + "; asyncio.StreamReader.readexactly contract trusted (chunking-independent), induction over messages",
+    ),
 }
 
 NA_REASONS = {
